@@ -648,3 +648,52 @@ func verifK_Registry() {
 	verifAssert(!verifMutexHeld(&h.mu) && !verifMutexHeld(&h.reverse.mu), "C15.k-registry-locks-released")
 	verifCover("k-reg-done")
 }
+
+// K-REGCLOSE (C12 C14 C15): a registered reverse tunnel closes itself (its tear-down hook unregisters
+// it) while another goroutine routes an RPC through the pooled channel and a third asks for the list:
+// no deadlock whatever the lock order of the two sides, routing finds an open tunnel or none, and at the
+// end the registry holds exactly the tunnel that stayed.
+func verifK_RegistryClose() {
+	h := NewTunnelServiceHandler(TunnelServiceHandlerOptions{})
+	mk := func() (*tunnelChannel, *vCliCarrier) {
+		car := vNewCliCarrier(context.Background())
+		car.hold = true
+		c := vNewCliChannel(car, 0, false)
+		c.tearDown = h.unregister
+		h.reverse.add(c, "k")
+		h.reverseChannelsForKey("k").add(c, "k")
+		return c, car
+	}
+	leaving, _ := mk()
+	staying, _ := mk()
+	routed, listed := false, false
+	var rerr error
+	verifGo("close", func() { leaving.Close() })
+	verifGo("route", func() {
+		// what multiChannel.NewStream does, twice: round robin gets to both tunnels
+		for i := 0; i < 2; i++ {
+			if p := h.reverse.pick(); p != nil {
+				if tc, ok := p.(*tunnelChannel); ok {
+					_, rerr = tc.newStream(context.Background(), true, true, "a/s")
+				}
+			}
+		}
+		routed = true
+	})
+	verifGo("list", func() {
+		all := h.AllReverseTunnels()
+		verifAssert(len(all) >= 1 && len(all) <= 2, "C12.k-regclose-list-is-a-possible-one")
+		_ = h.keyIsReady("k")
+		listed = true
+	})
+	verifDrain()
+	verifAssert(routed && listed, "C15.k-regclose-nobody-left-parked")
+	_ = rerr // an RPC routed to the tunnel that was just closing fails ("channel is closed"): legal
+	all := h.AllReverseTunnels()
+	verifAssert(len(all) == 1 && all[0] == TunnelChannel(staying), "C12+C14.k-regclose-registry-is-exactly-the-tunnel-that-stayed")
+	verifAssert(h.pickKey("k") == grpc.ClientConnInterface(staying), "C12.k-regclose-keyed-routing-follows")
+	verifAssert(!verifMutexHeld(&h.mu) && !verifMutexHeld(&h.reverse.mu) && !verifMutexHeld(&leaving.mu) && !verifMutexHeld(&staying.mu), "C15.k-regclose-locks-released")
+	verifCover("k-regclose-done")
+	staying.Close()
+	verifDrain()
+}
